@@ -1214,8 +1214,18 @@ pub fn run(ctx: &mut Ctx) {
     let nrand = if ctx.quick() { 2 } else if ctx.search() { 3 } else { 6 };
     let small_limit = if ctx.quick() { 400 } else if ctx.search() { 0 } else { 1500 };
     let only = std::env::var("C09_ONLY").ok();
-    for op in all_ops(&tier) {
-        let name = op.name();
+    // every operation at max_bit_len 8; a few again with a larger range table
+    let mut jobs: Vec<(Op, u8)> = all_ops(&tier).into_iter().map(|o| (o, 8u8)).collect();
+    jobs.push((Op::ToLeBits(Some(13), true), 10));
+    jobs.push((Op::LowerThan(20), 12));
+    if !ctx.quick() {
+        jobs.push((Op::ToLeBits(Some(64), true), 13));
+        jobs.push((Op::BigAdd(300), 11));
+        jobs.push((Op::Sha256(3), 11));
+        jobs.push((Op::FfMul(true), 14));
+    }
+    for (op, mbl) in jobs {
+        let name = if mbl == 8 { op.name() } else { format!("{}@mbl{mbl}", op.name()) };
         if let Some(f) = &only {
             if !name.starts_with(f.as_str()) {
                 continue;
@@ -1224,7 +1234,6 @@ pub fn run(ctx: &mut Ctx) {
         let mut rng = ctx.rng(&format!("classes:{name}"));
         let rel = OpRel { op: op.clone() };
         let cls = classes(&op, &mut rng, nrand);
-        let mbl = 8u8;
         // the V1 planner only on small circuits in the quick tier
         let v1 = !ctx.quick() || matches!(op, Op::Add | Op::IsZero | Op::LowerThan(8) | Op::ToLeBits(Some(8), true) | Op::PiNative(5) | Op::JubAdd | Op::Poseidon(2) | Op::VecLimits | Op::Select);
         let unknown = MidnightCircuit::new(&rel, Value::unknown(), Value::unknown(), Some(mbl));
@@ -1245,7 +1254,7 @@ pub fn run(ctx: &mut Ctx) {
             cache_case(ctx, &name, cs, &unknown);
         }
         // real proofs
-        let flow = if ctx.quick() { FLOW_QUICK.contains(&name.as_str()) } else { true };
+        let flow = mbl == 8 && if ctx.quick() { FLOW_QUICK.contains(&name.as_str()) } else { true };
         if flow {
             let (nc, mk) = if ctx.quick() { (2, 10) } else if ctx.search() { (2, 11) } else { (3, 13) };
             prove_flow(ctx, &mut srs, &rel, &name, &cls, nc, mk);
